@@ -819,8 +819,11 @@ func c20InfoCases(t *testing.T, cs *vg.Cases, c *c20Chain, r *vg.Rand) {
 			_, err := cl.BlockchainInfo(context.Background(), min, max)
 			return err
 		})
-		var ms, ids []string
+		var ms, ids, want []string
 		var hs []int64
+		for h := max; h >= min; h-- {
+			want = append(want, c20IDStr(c.ids[h-1]))
+		}
 		for _, m := range view.BlockMetas {
 			if m == nil {
 				ms = append(ms, "None")
@@ -833,8 +836,8 @@ func c20InfoCases(t *testing.T, cs *vg.Cases, c *c20Chain, r *vg.Rand) {
 		}
 		cs.Add(id, "info/"+kind, kind != "honest",
 			vg.App("CInfo", lc.term(false), vg.L(ms), vg.B(run.relayed), vg.L(run.calls), vg.B(honest)),
-			fmt.Sprintf("chain#%d(n=%d) BlockchainInfo(%d,%d), server answers metas of heights %v with BlockIDs %v, falsification: %s (meta #%d); relayed=%v err=%q",
-				c.idx, c.n, min, max, hs, ids, kind, pick, run.relayed, run.err))
+			fmt.Sprintf("chain#%d(n=%d) BlockchainInfo(%d,%d), server answers metas of heights %v with BlockIDs %v (the verified commits of heights %d..%d are for %v), falsification: %s (meta #%d); relayed=%v err=%q",
+				c.idx, c.n, min, max, hs, ids, max, min, want, kind, pick, run.relayed, run.err))
 	}
 }
 
